@@ -108,7 +108,8 @@ func c18DBOps() []c18Op {
 		for v := 0; v < 6; v++ { // (5: with a private key, so that 0–4 overwrite it with none) public keys of lengths 32, 0, 64 (overwrite longer / shorter) and two whose base64 text looks like hex
 			ops = append(ops, c18Op{Op: "save", Key: k, Val: v})
 		}
-		ops = append(ops, c18Op{Op: "entity", Key: k}, c18Op{Op: "delete-entity", Key: k})
+		// (delete-entity with Val 1: the caller hands over an entity value it got earlier — same name, another key)
+		ops = append(ops, c18Op{Op: "entity", Key: k}, c18Op{Op: "delete-entity", Key: k}, c18Op{Op: "delete-entity", Key: k, Val: 1})
 	}
 	ops = append(ops, c18Op{Op: "entities"}, c18Op{Op: "reopen"})
 	return ops
@@ -329,7 +330,11 @@ func c18Play(c *fw.Ctx, layer string, hist []c18Op, dir string) (state string, o
 			case "delete-entity":
 				i := 0
 				fmt.Sscan(op.Key, &i)
-				database.DeleteEntity(db.NewEntity(c18Names[i], nil, nil))
+				var stale []byte
+				if op.Val == 1 {
+					stale = pat(32, 99) // deletion is by name: whatever else the value carries
+				}
+				database.DeleteEntity(db.NewEntity(c18Names[i], stale, nil))
 				delete(ents, c18Names[i])
 			}
 		})
@@ -542,7 +547,7 @@ func init() {
 	fw.Register(&fw.Check{
 		ID:     "C18",
 		Level:  "model_checking",
-		Rule:   "explicit-state breadth-first search over the real file storage and pairing database: alphabet Set(k,v) for 3 keys (thorough 4; one looks like an entity file, one is another key plus .tmp) × 5 values (lengths 0,1,3,6,4096), Get, Delete, KeysWithSuffix × 3 suffixes, reopen; SaveEntity (3 key lengths) / EntityWithName / DeleteEntity / Entities / reopen for 9 entity names (ASCII, empty, non-ASCII, with slash, with colon, 100 arbitrary bytes, invalid UTF-8 ending in 0xfe and in 0xee, a name ending in '.entity'). State = exact directory content (file names and bytes); every operation is executed in every discovered state by replaying the state's shortest history on a fresh directory; after every step all keys, listings and entities are compared with a Go map. Because that merging is sound only if the storage object holds nothing but the path, EVERY history of length 3 (thorough 4) over a reduced alphabet (2 keys × 4 values, get, delete, listing, reopen; 3 entity names) is additionally replayed without merging. distinct_nontrivial = distinct (layer, operation) classes executed Added: the searches repeated in storage directories named 'Lamp [Kitchen]', 'a*b', 'what?', '[a-', 'back\\slash', '{x,y}', 'per%cent', ' lead and trail '; writes cut short by the operating system (RLIMIT_FSIZE) for Set and SaveEntity — success only with the complete value, failure leaves the previous one; a storage BFS over two keys that differ only in letter case; entity names \"A\" (next to \"a\") and a 124-byte name. Plus, in a subprocess built with a scheduling point before EVERY statement of hc's packages (textual insertion through go build -overlay): every interleaving with at most 1 (thorough 2) preemptions of pairs of operations on disjoint objects — and, where the property is about served requests, of pairs of handlers on two verified connections of one accessory touching different characteristics — each side must observe exactly what it observes when the two run one after the other (module-level mutable state is what makes them differ). Also one key with 8 value shapes (line breaks, blanks, NUL, 0xff at either end, nothing but line breaks) to depth 3, and public keys whose base64 text consists of hexadecimal digits only; entities with a private key that later saves replace by none; two names (one empty) to depth 4 (thorough 5) with reopen; what Get returned stays what it was while other keys are read; a key with colons next to its colon-free spelling (the storage drops colons: one key); one key with three values of one length, every history of length 4 (thorough 6) without merging, under a clock that does not advance (every file written gets the same time stamp); reads (Get, EntityWithName, listings) are operations of the object under test inside the histories, not only observations at their end; keys that differ only in '<' or '?'.",
+		Rule:   "explicit-state breadth-first search over the real file storage and pairing database: alphabet Set(k,v) for 3 keys (thorough 4; one looks like an entity file, one is another key plus .tmp) × 5 values (lengths 0,1,3,6,4096), Get, Delete, KeysWithSuffix × 3 suffixes, reopen; SaveEntity (3 key lengths) / EntityWithName / DeleteEntity / Entities / reopen for 9 entity names (ASCII, empty, non-ASCII, with slash, with colon, 100 arbitrary bytes, invalid UTF-8 ending in 0xfe and in 0xee, a name ending in '.entity'). State = exact directory content (file names and bytes); every operation is executed in every discovered state by replaying the state's shortest history on a fresh directory; after every step all keys, listings and entities are compared with a Go map. Because that merging is sound only if the storage object holds nothing but the path, EVERY history of length 3 (thorough 4) over a reduced alphabet (2 keys × 4 values, get, delete, listing, reopen; 3 entity names) is additionally replayed without merging. distinct_nontrivial = distinct (layer, operation) classes executed Added: the searches repeated in storage directories named 'Lamp [Kitchen]', 'a*b', 'what?', '[a-', 'back\\slash', '{x,y}', 'per%cent', ' lead and trail '; writes cut short by the operating system (RLIMIT_FSIZE) for Set and SaveEntity — success only with the complete value, failure leaves the previous one; a storage BFS over two keys that differ only in letter case; entity names \"A\" (next to \"a\") and a 124-byte name. Plus, in a subprocess built with a scheduling point before EVERY statement of hc's packages (textual insertion through go build -overlay): every interleaving with at most 1 (thorough 2) preemptions of pairs of operations on disjoint objects — and, where the property is about served requests, of pairs of handlers on two verified connections of one accessory touching different characteristics — each side must observe exactly what it observes when the two run one after the other (module-level mutable state is what makes them differ). Also one key with 8 value shapes (line breaks, blanks, NUL, 0xff at either end, nothing but line breaks) to depth 3, and public keys whose base64 text consists of hexadecimal digits only; entities with a private key that later saves replace by none; two names (one empty) to depth 4 (thorough 5) with reopen; what Get returned stays what it was while other keys are read; a key with colons next to its colon-free spelling (the storage drops colons: one key); one key with three values of one length, every history of length 4 (thorough 6) without merging, under a clock that does not advance (every file written gets the same time stamp); DeleteEntity is also called with an entity value that carries another key than the stored one (deletion is by name); reads (Get, EntityWithName, listings) are operations of the object under test inside the histories, not only observations at their end; keys that differ only in '<' or '?'.",
 		Shards: func(string) int { return 16 },
 		Run:    c18Run,
 		Replay: func(c *fw.Ctx, raw json.RawMessage) {
